@@ -213,7 +213,9 @@ class IntermediateCodeGen(AbstractCodeGen):
             baseSymType, baseSymSubtype = self.getBaseType(*symType)
             if isinstance(baseSymSubtype, list):
                 if isinstance(symSubtype, list):
-                    symSubtype += baseSymSubtype
+                    # new list: the original one belongs to the symbol table
+                    # (and to the syntax tree it was built from)
+                    symSubtype = symSubtype + baseSymSubtype
                 else:
                     symSubtype = baseSymSubtype
 
